@@ -433,55 +433,106 @@ func handOverRules(c *Ctx, rule, rule3 string) {
 		}
 		// role-list writes in this routine: calls reaching SaveKeyValue under the role prefix, with the create-role constant involved
 		roleOps := roleCalls(c.P, ge, roleStr)
-		if len(g.reads) == 1 {
-			// ---- current owner
+		if len(g.reads) >= 1 {
+			// ---- current owner: the routine that reads the stored counter (the next owner takes it from the message)
 			rd := g.reads[0]
-			counterReadNotFailSoft(c, rule, rd, "hand-over")
 			rc := topCall(rd)
-			readRes := ge.Term(rc.(ssa.Value)) + "#0"
 			pos := c.P.InstrPos(rc)
-			if rd.acct == x.dst && rd.token == x.arg(0) {
-				c.OK(rule, FuncName(g.fn), "current owner: counter read from the holder under Arguments[0]", pos, rd.acct)
-			} else {
-				c.Fail(rule, "violation", FuncName(g.fn), "current owner: counter read from the holder under Arguments[0]", pos, "read ("+rd.acct+", "+rd.token+")")
+			// what a read hands to the routine: the result of the call that performs it, at any level of its chain
+			// (getLatestNonce called here, or inside a helper of the routine)
+			chainOf := func(ns nonceSite) []callLevel {
+				var ch []callLevel
+				var call ssa.CallInstruction = ns.s.In.(ssa.CallInstruction)
+				for y := ns.s.Env; y != nil; y = y.Parent {
+					ch = append([]callLevel{{y, call}}, ch...)
+					if y == ge || y.Parent == nil {
+						break
+					}
+					call = y.Call
+				}
+				return ch
+			}
+			// mayFollow: b can execute after a (decided at the first level at which their call chains part)
+			mayFollow := func(a, b nonceSite) bool {
+				ca, cb := chainOf(a), chainOf(b)
+				for i := 0; i < len(ca) && i < len(cb); i++ {
+					if ca[i].env.Fn != cb[i].env.Fn {
+						return true
+					}
+					if ca[i].call != cb[i].call {
+						return instrReaches(ca[i].env.Fn, ca[i].call, cb[i].call, nil)
+					}
+				}
+				return true
+			}
+			readTerms := map[string]nonceSite{}
+			for _, r := range g.reads {
+				counterReadNotFailSoft(c, rule, r, "hand-over")
+				for _, l := range chainOf(r) {
+					if v, ok := l.call.(ssa.Value); ok {
+						readTerms["Bytes(bigU("+l.env.Term(v)+"#0))"] = r
+					}
+				}
+				rpos := c.P.InstrPos(topCall(r))
+				if r.acct == x.dst && r.token == x.arg(0) {
+					c.OK(rule, FuncName(g.fn), "current owner: counter read from the holder under Arguments[0]", rpos, r.acct)
+				} else {
+					c.Fail(rule, "violation", FuncName(g.fn), "current owner: counter read from the holder under Arguments[0]", rpos, "read ("+r.acct+", "+r.token+")")
+				}
+			}
+			// a read that can run after the reset sees the 0 that was just written, not the counter
+			staleRead := func(r nonceSite) (string, bool) {
+				for _, w := range g.writes {
+					if w.acct == x.dst && w.token == r.token && w.val == "Bytes(bigU(0))" && mayFollow(w, r) {
+						return c.P.InstrPos(w.s.In), true
+					}
+				}
+				return "", false
 			}
 			zeroed, moved := false, false
+			var zeroChains [][]callLevel
 			for _, w := range g.writes {
 				switch {
 				case w.acct == x.dst && w.token == rd.token && (w.val == "Bytes(bigU(0))"):
-					if cutsSuccess(topCall(w)) {
-						zeroed = true
-					}
+					zeroChains = append(zeroChains, chainOf(w))
 				case w.acct != x.dst && w.token == rd.token:
-					if w.val == "Bytes(bigU("+readRes+"))" {
-						moved = true
+					if r, ok := readTerms[w.val]; ok {
+						if at, stale := staleRead(r); stale {
+							c.Fail(rule, "violation", FuncName(g.fn), "current owner: new holder receives the counter read", c.P.InstrPos(w.s.In), "the value written to the new holder is read after the old holder's counter was reset (at "+at+"): the new holder restarts at 0")
+						} else {
+							moved = true
+						}
 					} else {
 						c.Fail(rule, "violation", FuncName(g.fn), "current owner: new holder receives the counter read", c.P.InstrPos(w.s.In), "the new holder's counter is set to "+w.val+", not the value read from the old holder")
 					}
 				}
 			}
+			// the resets may sit in different branches (one per kind of next owner): together they lie on every successful path
+			zeroed = len(zeroChains) > 0 && passesOneOf(ge, 0, zeroChains, nil)
 			if zeroed {
 				c.OK(rule, FuncName(g.fn), "current owner: old counter overwritten with 0 on every successful path", pos, "write of constant 0 cuts every success return")
 			} else {
 				c.Fail(rule, "violation", FuncName(g.fn), "current owner: old counter overwritten with 0 on every successful path", pos, "the old holder keeps a live counter after handing the role over: two accounts can issue the same nonce")
 			}
 			if moved {
-				c.OK(rule, FuncName(g.fn), "current owner: new holder receives the counter read", pos, "Bytes(bigU("+readRes+"))")
+				c.OK(rule, FuncName(g.fn), "current owner: new holder receives the counter read", pos, "the value of a read that precedes the reset")
 			} else {
 				c.Fail(rule, "violation", FuncName(g.fn), "current owner: new holder receives the counter read", pos, "on the same shard the new holder's counter is not written with the value read")
 			}
 			// role removed from the old holder on every successful path; added to the new one
 			removed, added := false, false
+			var removeChains [][]callLevel
 			for _, rcall := range roleOps {
 				switch {
 				case rcall.acct == x.dst && rcall.deletes:
-					if chainCutsSuccess(rcall) && rcall.removalSaved {
-						removed = true
+					if rcall.removalSaved {
+						removeChains = append(removeChains, rcall.chain)
 					}
 				case rcall.acct != x.dst && rcall.adds:
 					added = true
 				}
 			}
+			removed = len(removeChains) > 0 && passesOneOf(ge, 0, removeChains, nil)
 			if removed {
 				c.OK(rule, FuncName(g.fn), "current owner: create role removed from the old holder on every successful path", pos, "role removal cuts every success return")
 			} else {
@@ -573,7 +624,15 @@ func handOverRules(c *Ctx, rule, rule3 string) {
 				var hexArgs []string
 				collectHexArgs(ms.Env, st.Val, &hexArgs, 0)
 				construct := "current owner: message carries (token, counter read)"
-				if len(hexArgs) == 2 && hexArgs[0] == rd.token && hexArgs[1] == "Bytes(bigU("+readRes+"))" {
+				shipRead, isRead := nonceSite{}, false
+				if len(hexArgs) == 2 {
+					shipRead, isRead = readTerms[hexArgs[1]]
+				}
+				if at, stale := staleRead(shipRead); isRead && hexArgs[0] == rd.token && stale {
+					shipped = true
+					c.FailX(Oblig{Rule: rule, Func: FuncName(g.fn), Construct: construct, Pos: c.P.InstrPos(st), Kind: "violation",
+						Detail: "the counter put into the hand-over message is read after the old holder's counter was reset (at " + at + "): the message carries 0 and the new holder restarts below nonces already issued"})
+				} else if isRead && hexArgs[0] == rd.token {
 					shipped = true
 					c.OK(rule, FuncName(g.fn), construct, c.P.InstrPos(st), strings.Join(hexArgs, ", "))
 				} else {
@@ -611,6 +670,38 @@ func handOverRules(c *Ctx, rule, rule3 string) {
 			}
 		}
 	}
+}
+
+// passesOneOf: every successful return of the routine (level 0 of the chains) has passed one of the operations, each given
+// with the calls that lead from the routine down to it: at every level the call lies on every successful path of its function.
+func passesOneOf(env *Env, level int, chains [][]callLevel, assume []Fact) bool {
+	groups := map[ssa.CallInstruction][][]callLevel{}
+	var order []ssa.CallInstruction
+	for _, ch := range chains {
+		if level >= len(ch) || ch[level].env.Fn != env.Fn {
+			continue
+		}
+		if _, seen := groups[ch[level].call]; !seen {
+			order = append(order, ch[level].call)
+		}
+		groups[ch[level].call] = append(groups[ch[level].call], ch)
+	}
+	var good []ssa.Instruction
+	for _, call := range order {
+		leaf := false
+		var deeper [][]callLevel
+		for _, ch := range groups[call] {
+			if len(ch) == level+1 {
+				leaf = true
+			} else {
+				deeper = append(deeper, ch)
+			}
+		}
+		if leaf || (len(deeper) > 0 && passesOneOf(deeper[0][level+1].env, level+1, deeper, assume)) {
+			good = append(good, call)
+		}
+	}
+	return len(good) > 0 && passesAnyUnder(env, good, assume) == ""
 }
 
 type roleCall struct {
@@ -660,6 +751,14 @@ func roleCallsRec(p *Prog, e *Env, role string, above []callLevel, depth int) []
 					out = append(out, roleCallsRec(p, sub, role, chain, depth+1)...)
 				}
 				continue
+			}
+			// the deepest level at which a call both performs the operation and saves the list names the account: a helper that is
+			// handed one account may load another one and change that one's list
+			if depth < 3 {
+				if deeper := roleCallsRec(p, sub, role, chain, depth+1); len(deeper) > 0 {
+					out = append(out, deeper...)
+					continue
+				}
 			}
 			rc := roleCall{call: call, acct: acct, chain: chain}
 			// what happens in the routine and below it (helpers, function literals handed to a generic load-modify-save helper)
